@@ -1,4 +1,5 @@
 import MosnVerif.Model.FilterChain
+import MosnVerif.Gen.RetryState
 /-!
 The part of the downstream phase machine (pkg/proxy/downstream.go `OnReceive` task loop, `receive`, `processError`,
 `waitNotify`, `chooseHost`, `appendHeaders/Data/Trailers`, `cleanStream`, upstream.go `appendHeaders`/`OnReceive`/
@@ -11,9 +12,19 @@ Everything the environment decides is a parameter the theorems quantify over (`E
 and host choice (by invocation number), whether the pool refuses the stream, one-way, and the upstream event delivered
 while the worker waits (`response | reset | asynchronous TerminateStream`).
 
-Not modelled (assumptions, stated in props/C14.json): routes carry no retry policy (`setupRetry` never set, phase
-`Retry` unreachable), no downstream reset, no timer fires, filters do not write the response themselves
-(`AppendHeaders` on the handler), one upstream event.
+Retries.  The route's retry policy and the `proxy_disable_retry` variable are part of the environment (`Env.pol`).
+`chooseHost` creates the retry state (always, when a host was chosen: `newRetryState`), the REGENERATED `processError`
+drops it in its direct-response branch (`clearRetryState`), `onUpstreamHeaders` (every response that goes through
+`UpRecvHeader`, local replies included: the status is the x-mosn-status variable the hijack wrote) and `onUpstreamReset`
+(reason of the pool refusal / upstream reset) consult it with the retry decision regenerated for C17
+(`Gen.RetryState`: `doRetryCheck`, `shouldRetry`, `retry`, the two guards).  When the decision fires, `setupRetry` sets
+`upstreamRequest.setupRetry`, the regenerated `processError` returns the phase `Retry`, and the task loop would run
+`doRetry` — `ConnectionPool.NewStream` for the same request.  That is where this model stops: `ret` halts the run with
+`retried = true` (what a retried request does afterwards is the subject of C03/C17's machine).  So `retried` means
+"the request is (re)sent upstream".
+
+Not modelled (assumptions, stated in props/C14.json): what follows a retry, no downstream reset, no timer fires, filters
+do not write the response themselves (`AppendHeaders` on the handler), one upstream event.
 -/
 namespace MosnVerif.Model.FilterMachine
 open MosnVerif.Gen.FilterPhase MosnVerif.Model.FilterChain
@@ -31,6 +42,14 @@ inductive UpEvent where
   | terminate (code : Nat)                     -- TerminateStream(code) from another goroutine while the worker waits
   deriving DecidableEq, Repr
 
+/-- the route's retry policy as `newRetryState` / `doRetryCheck` read it, and the `proxy_disable_retry` variable -/
+structure RetryPol where
+  disabled : Bool := true         -- proxy_disable_retry is set: nothing is ever retried
+  retryOn : Bool := false         -- retry_on
+  codes : List Nat := []          -- retriable status codes (empty: every code ≥ 500)
+  numRetries : Nat := 0           -- num_retries (the budget is max 3 num_retries)
+  deriving Repr
+
 structure Env where
   route : Nat → RouteRes          -- k-th matchRoute
   host : Nat → Bool               -- k-th chooseHost: a healthy host and a pool exist
@@ -38,6 +57,8 @@ structure Env where
   noRouteCode : Nat := 404        -- api.RouterUnavailableCode
   noHostCode : Nat := 502         -- api.NoHealthUpstreamCode
   resetCode : Nat := 502          -- types.ConvertReasonToCode(reason) of the pool refusal / upstream reset of this case
+  resetReason : String := "StreamRemoteReset"   -- that reason (types.StreamResetReason)
+  pol : RetryPol := {}
   oneway : Bool := false
   reqData : Bool := false
   reqTrailers : Bool := false
@@ -70,6 +91,8 @@ structure St extends FState where
   upstreamReset : Bool := false
   procDone : Bool := false        -- upstreamProcessDone
   upReq : Bool := false           -- s.upstreamRequest built by chooseHost
+  rs : Option Nat := none         -- s.retryState (its retry budget), created by chooseHost
+  retried : Bool := false         -- … because `processError` returned the phase Retry: the request is sent upstream again
   route : RouteRes := .none
   nMatch : Nat := 0
   nChoose : Nat := 0
@@ -82,11 +105,40 @@ def liftF (s : St) (f : FState) : St := { s with toFState := f }
 /-- downStream.cleanStream -/
 def clean (s : St) : St := liftF s (cleanStream s.toFState)
 
-/-- downStream.onUpstreamReset without a retry policy: answer with the code of the reset reason -/
+/-- downStream.onUpstreamReset when the reset is not retried: answer with the code of the reset reason -/
 def onUpstreamReset (code : Nat) (s : St) : St :=
   { liftF s (sendHijack s.toFState code false) with upstreamReset := false }
 
-def ops (c : Cfg) : Ops St where
+/-- `retryState.retry(ctx, headers, reason) == api.ShouldRetry`, composed from the regenerated pieces: `status` = the
+x-mosn-status variable (`MappingHeaderStatusCode` fails when it is unset), `reason` = "" for response headers; the
+Retries breaker admits (the clusters of C14 are unlimited) -/
+def retryFires (e : Env) (budget : Nat) (status : Option Nat) (reason : String) : Bool :=
+  let chk := Gen.RetryState.doRetryCheck true e.pol.disabled e.pol.retryOn status.isNone (Int.ofNat (status.getD 0))
+    (e.pol.codes.map Int.ofNat) reason
+  Gen.RetryState.retry (Gen.RetryState.shouldRetry (Int.ofNat budget) chk true).1 == Gen.RetryState.rcShouldRetry
+
+/-- `onUpstreamHeaders` decides to retry: a retry state exists (regenerated guard) and the decision on the status fires
+(`setupRetry` always succeeds here: no timer) -/
+def headersRetry (c : Cfg) (s : St) : Bool :=
+  match s.rs with
+  | some b => Gen.RetryState.headersGuard true &&
+      Gen.RetryState.headersRetryCond (if retryFires c.env b s.statusVar "" then Gen.RetryState.rcShouldRetry else Gen.RetryState.rcNoRetry)
+  | none => Gen.RetryState.headersGuard false
+
+/-- `onUpstreamReset` decides to retry: regenerated guard (reason, no response started yet, retry state) and decision -/
+def resetRetry (c : Cfg) (s : St) : Bool :=
+  match s.rs with
+  | some b => Gen.RetryState.resetGuard c.env.resetReason false true &&
+      Gen.RetryState.resetRetryCond (if retryFires c.env b none c.env.resetReason then Gen.RetryState.rcShouldRetry else Gen.RetryState.rcNoRetry)
+  | none => Gen.RetryState.resetGuard c.env.resetReason false false
+
+/-- `setupRetry()` as far as this model sees it: the CAS words are swung back -/
+def setRetry (s : St) : St := liftF { s with upstreamReset := false } { s.toFState with upRespReceived := false }
+
+/-- `d` = the value of `upstreamRequest.setupRetry` this call of `processError` reads: set by the `onUpstreamHeaders` of the
+phase that just ran, or by the `onUpstreamReset` this very call makes — `processError` always consumes it, it never
+survives the call -/
+def ops (c : Cfg) (d : Bool) : Ops St where
   cleaned s := s.cleaned
   upstreamReset s := s.upstreamReset
   downstreamReset _ := false
@@ -94,28 +146,34 @@ def ops (c : Cfg) : Ops St where
   oneway _ := c.env.oneway
   curPhase s := s.phase
   upstreamProcessDone s := s.procDone
-  setupRetry _ := false
+  setupRetry _ := d
   again s := s.again
   setDirectResponse s b := { s with direct := b }
-  clearRetryState s := s
+  clearRetryState s := { s with rs := none }
   releaseRetry s := s
   setAgain s p := { s with again := p }
   setSetupRetry s _ := s
-  onUpstreamReset s := onUpstreamReset c.env.resetCode s
+  onUpstreamReset s := if d then setRetry s else onUpstreamReset c.env.resetCode s
   resetStream s := clean s
   markDirectResponse s := s
 
 /-- `receive` returned phase `p` to the task loop of OnReceive -/
 def ret (s : St) (p : Nat) : St :=
   if p = End then { s with halted := true, phase := p }
+  else if p = Retry then { s with halted := true, retried := true, phase := p }   -- doRetry: the request goes upstream again
   else if s.outer + 1 ≥ taskLoopBound then { s with halted := true, exhausted := true, phase := p }
   else { s with phase := p, inner := 0, outer := s.outer + 1 }
 
 /-- `if p, err := s.processError(id); err != nil { return p }; phase++` -/
-def afterPE (c : Cfg) (s : St) : St :=
-  match processError (ops c) false s with
+def afterPEd (c : Cfg) (d : Bool) (s : St) : St :=
+  match processError (ops c d) false s with
   | (p, true, s') => ret s' p
   | (_, false, s') => { s' with phase := s'.phase + 1 }
+
+/-- … after a phase whose body did not run `onUpstreamHeaders`: `setupRetry` can only be set by the `onUpstreamReset` that
+`processError` itself calls (a pending upstream reset of a two-way request) -/
+def afterPE (c : Cfg) (s : St) : St :=
+  afterPEd c (s.upstreamReset && !c.env.oneway && resetRetry c s) s
 
 def filterPass (c : Cfg) (p : RPhase) (s : St) : St :=
   let (f, invs) := runRecv c.recv p s.toFState
@@ -132,7 +190,8 @@ def chooseHost (c : Cfg) (s : St) : St :=
   | .none => liftF s (sendHijack s.toFState c.env.noRouteCode false)
   | .direct code body => liftF s (sendHijack s.toFState code body)
   | .found =>
-    if c.env.host (s.nChoose - 1) then { s with upReq := true }
+    if c.env.host (s.nChoose - 1) then
+      { s with upReq := true, rs := some (Gen.RetryState.initialBudget (Int.ofNat c.env.pol.numRetries)).toNat }
     else liftF s (sendHijack s.toFState c.env.noHostCode false)
 
 /-- receiveHeaders → upstreamRequest.appendHeaders: pool.NewStream -/
@@ -187,7 +246,10 @@ def phaseCase (c : Cfg) (s : St) : St :=
   else if s.phase = sendFilterPhase then afterPE c (sendPass c s)
   else if s.phase = UpRecvHeader then
     match s.resp with
-    | some r => afterPE c (respHeaders s r)
+    | some r =>
+      -- upstreamRequest.receiveHeaders → onUpstreamHeaders: the retry decision comes first
+      if !(s.procDone || s.upstreamReset) && headersRetry c s then afterPEd c true (setRetry s)
+      else afterPE c (respHeaders s r)
     | none => { s with phase := s.phase + 1 }
   else if s.phase = UpRecvData then
     match s.resp with
